@@ -378,17 +378,25 @@ def _rt():
     return _RT
 
 
+_STANDALONE_DOTS = re.compile(r"^ +(\.\.\.)(?=[ \t\r]*$)", re.M)
+
+
 def segment(text):
     """Split `text` into pieces with the grammar's own terminals (ignored ones kept).  Returns (pieces, problem)."""
     rt = _rt()
     from lark.exceptions import UnexpectedCharacters
 
+    # The stand-alone `...` statement is rewritten by `_apply_pre_parsing_expansions` before the lexer runs; lexed raw, its dots
+    # would glue to a following quoted line (`STRING: /(\.\.\.\s*)?"…"/`).  Lex up to the end of such dots separately.
+    cuts = [m.end(1) for m in _STANDALONE_DOTS.finditer(text)]
     pieces = []
     pos = 0
     while pos <= len(text):
-        chunk = text[pos:]
+        end = next((c for c in cuts if c > pos), len(text))
+        chunk = text[pos:end]
         if not chunk:
             break
+        nxt = end
         try:
             for t in rt["LexerThread"].from_text(rt["raw"], chunk).lex(None):
                 v = str(t)
@@ -424,7 +432,9 @@ def segment(text):
                             return pieces, "unexpected character in _NEWLINE"
                 else:
                     pieces.append(["t", t.type, v])
-            break
+            if nxt >= len(text):
+                break
+            pos = nxt
         except UnexpectedCharacters as e:
             bad = pos + e.pos_in_stream
             if text[bad] == "\t":
@@ -805,6 +815,15 @@ def parse_real(content, version):
         return {"exc": type(e).__name__, "msg": str(e)[:200]}
 
 
+def expanded_text(content):
+    from nemoguardrails.colang.v2_x.lang.parser import ColangParser
+
+    try:
+        return ColangParser._apply_pre_parsing_expansions(content)
+    except Exception:  # noqa
+        return content
+
+
 def pre_real(content):
     from nemoguardrails.colang.v2_x.lang.parser import ColangParser
 
@@ -856,8 +875,16 @@ def run_layout_v2(content, edits, want_ast):
     econtent = etext[:-1]
     obs["changed"] = econtent != content
     obs["epieces"] = ep
-    obs["stream"] = real_stream(content + "\n")
-    obs["estream"] = real_stream(econtent + "\n")
+    # the lexer sees the text AFTER `_apply_pre_parsing_expansions`: streams and model pieces are taken from the expanded texts
+    x, ex = expanded_text(content), expanded_text(econtent)
+    obs["stream"] = real_stream(x + "\n")
+    obs["estream"] = real_stream(ex + "\n")
+    mp, mprob = (pieces, None) if x == content else segment(x + "\n")
+    mep, meprob = segment(ex + "\n")
+    if mprob or meprob:
+        obs["model_seg_problem"] = mprob or meprob
+    else:
+        obs["mpieces"], obs["mepieces"] = mp, mep
     # the edited text is re-segmented by the real lexer: it must give back the edited pieces (else the edit fell inside a token)
     rp, rprob = segment(econtent + "\n")
     obs["reseg_same"] = (rprob is None and rp == ep)
@@ -1191,12 +1218,12 @@ def model_requests(case, obs):
     if obs.get("sweep"):
         return []
     if obs.get("version") == "2.x" and k in ("tok", "v2", "file"):
-        if obs.get("seg_problem") or "epieces" not in obs or len(obs["pieces"]) > MAX_MODEL_PIECES:
+        if obs.get("seg_problem") or "mpieces" not in obs or len(obs["mpieces"]) > MAX_MODEL_PIECES:
             return []
-        reqs = [{"m": "C13.layout", "pieces": obs["pieces"]}, {"m": "C13.layout", "pieces": obs["epieces"]}]
+        reqs = [{"m": "C13.layout", "pieces": obs["mpieces"]}, {"m": "C13.layout", "pieces": obs["mepieces"]}]
         edits = _edits_of(case, obs)
         if len(edits) == 1 and edits[0]["op"] == "scale":
-            reqs.append({"m": "C13.layout", "pieces": obs["pieces"], "k": edits[0]["k"]})
+            reqs.append({"m": "C13.layout", "pieces": obs["mpieces"], "k": edits[0]["k"]})
         if "pre" in obs:
             reqs += [{"m": "C13.preexpand", "lines": obs["pre_in"][0]}, {"m": "C13.preexpand", "lines": obs["pre_in"][1]}]
         return reqs
@@ -1388,13 +1415,33 @@ def _comment_after_long_string(obs, edits):
     `...` statement (three DOT tokens): the two places where the line-based `_apply_pre_parsing_expansions` looks at line ends"""
     texts = {e["text"] for e in edits if e["op"] == "comment"}
     ps = obs.get("epieces") or []
+    # a comment that is already in the source after `...` / a docstring is the same situation, exposed by any other edit
+    # (e.g. scaling: the comment stays behind on a line of its own with ONE blank of indentation)
+    in_source = {p[1] for p in (obs.get("pieces") or []) if p[0] == "c"}
     for i, p in enumerate(ps):
-        if p[0] == "c" and any(p[1].startswith(t) for t in texts):  # (blanks appended later merge into the comment)
+        if p[0] == "c" and (p[1] in in_source or any(p[1].startswith(t) for t in texts)):  # (blanks appended later merge into the comment)
             j = i - 1
             while j >= 0 and ps[j][0] == "s":
                 j -= 1
             if j >= 0 and ps[j][0] == "t" and ps[j][1] in ("LONG_STRING", "DOT"):
                 return True
+    return False
+
+
+def _dots_with_rest(pieces):
+    """a line that starts with blanks + `...` and goes on (comment or tokens): the pre-expansion leaves that rest behind on a line
+    of its own, indented by ONE blank whatever the indentation of the `...` was"""
+    for i in range(len(pieces) - 2):
+        if all(pieces[i + d][0] == "t" and pieces[i + d][1] == "DOT" for d in range(3)):
+            j = i - 1
+            while j >= 0 and pieces[j][0] == "s":
+                j -= 1
+            if (j < 0 or pieces[j][0] == "n") and j < i - 1:
+                t = i + 3
+                while t < len(pieces) and pieces[t][0] == "s":
+                    t += 1
+                if t < len(pieces) and pieces[t][0] != "n":
+                    return True
     return False
 
 
@@ -1430,7 +1477,7 @@ def signature(case, obs, msg):
                     return "trailing-tab-v2"
             elif obs.get("east", {}).get("exc") == "UnexpectedCharacters" and "No terminal matches '\t'" in obs["east"].get("msg", ""):
                 return "trailing-tab-v2"
-        if k != "tok" and _comment_after_long_string(obs, edits):
+        if _comment_after_long_string(obs, edits) or _dots_with_rest(obs.get("pieces") or []) or _dots_with_rest(obs.get("epieces") or []):
             return "eol-comment-pre-expansion-v2"
     return None
 
